@@ -100,7 +100,7 @@ w('')
 w('### 12.3 Behaviour-preserving refactorings: the false-alarm side\n')
 th = hist.get('twins', {})
 w('A check that alarms on code that still satisfies the property is broken, so the same procedure was run for refactorings. '
-  'Besides my own 58 twins (`gsa/corpus/twins.py`, all silent) three batches (T, U, V) and a last small sample (W, 10 properties) were written by sub-agents; each was evaluated once '
+  'Besides my own 61 twins (`gsa/corpus/twins.py`, all silent) three batches (T, U, V) and a last small sample (W, 10 properties) were written by sub-agents; each was evaluated once '
   'before anything was changed, then used to make the rules independent of spelling (§11.5).\n')
 w('| batch | written against | confirmed | first evaluation | final: silent / undecided / false violation |')
 w('|---|---|---|---|---|')
@@ -146,9 +146,9 @@ w('What the three rounds show: the first-evaluation silent rate on *unseen* refa
   '§12.1 (first evaluation of the last batch, written after all robustness work: 48/60).\n')
 
 w('### 12.4 How to re-run\n')
-w('```\n/venv/bin/python /verif/tools/mut.py              # 92 single-edit mutants, each must be reported by its property check\n'
-  '/venv/bin/python /verif/tools/twins.py -a         # 58 own twins x 20 checks, all must stay silent\n'
-  '/venv/bin/python /verif/tools/seedeval.py --kept  # 240 seeded changes -> seeded/RESULTS.json\n'
+w('```\n/venv/bin/python /verif/tools/mut.py              # 95 single-edit mutants, each must be reported by its property check\n'
+  '/venv/bin/python /verif/tools/twins.py -a         # 61 own twins x 20 checks, all must stay silent\n'
+  '/venv/bin/python /verif/tools/seedeval.py --kept  # all seeded changes -> seeded/RESULTS.json\n'
   '/venv/bin/python /verif/tools/twineval.py --kept  # 230 independent twins -> twins_indep/RESULTS.json\n'
   '/venv/bin/python /verif/tools/tw.py <dir> C05 C19 # one patch, chosen checks, full report\n```\n'
   'The thorough tier of a property (`check.py Cxx --tier thorough`) runs the quick check, the stub conformance and the property\'s '
